@@ -31,6 +31,7 @@ func checkC08(c *Ctx) {
 		}
 		c08Stores(c, p, m)
 		c08Pools(c, p, m)
+		pooledObjectsFresh(c, p, "R08.3")
 		c02Counts(c, p, m)
 		c02Sink(c, p, m)
 		c02Newline(c, p, m)
